@@ -4,6 +4,7 @@ import (
 	"verifh/checks/c01"
 	"verifh/checks/c02"
 	"verifh/checks/c07"
+	"verifh/checks/c14"
 	"verifh/mc"
 )
 
@@ -11,4 +12,5 @@ var registry = map[string]*mc.Check{
 	"C01": c01.Check,
 	"C02": c02.Check,
 	"C07": c07.Check,
+	"C14": c14.Check,
 }
